@@ -791,9 +791,11 @@ class StoreRun:
     # -- operations
     def enabled_tag(self, tag, target_samples, target_chroms):
         """writing `tag` for the targets must not leave the file with both encodings (user error, not whatshap's)"""
+        # whatshap's reader decides the encoding per chromosome: different chromosomes may use different encodings,
+        # two samples on the same chromosome may not
         targets = {(c, s) for c in target_chroms for s in target_samples}
         for cs, t in self.tag_of.items():
-            if cs not in targets and t != tag:
+            if cs not in targets and t != tag and cs[0] in target_chroms:
                 return False
         return True
 
